@@ -1,0 +1,35 @@
+//go:build verif
+// +build verif
+
+package graphql
+
+import "sync"
+
+// Counters of traversal steps, for the verification harness (build tag verif).
+
+var verifMu sync.Mutex
+var verifCounters = map[string]int64{}
+
+func verifCount(name string) {
+	verifMu.Lock()
+	verifCounters[name]++
+	verifMu.Unlock()
+}
+
+// VerifResetCounters clears all counters.
+func VerifResetCounters() {
+	verifMu.Lock()
+	verifCounters = map[string]int64{}
+	verifMu.Unlock()
+}
+
+// VerifCounters returns a copy of the counters.
+func VerifCounters() map[string]int64 {
+	verifMu.Lock()
+	defer verifMu.Unlock()
+	out := make(map[string]int64, len(verifCounters))
+	for k, v := range verifCounters {
+		out[k] = v
+	}
+	return out
+}
